@@ -37,21 +37,7 @@ def run_check(pid, tier, seed, replay=None):
         print("FRAMEWORK-ERROR: model extraction/build failed\n" + mlog[-2000:]); return 2
     model_exe = os.path.join(core.OCAML, "model_run")
 
-    # 2. driver from /repo's working tree
-    drv, dlog = core.ensure_driver(prop.DRIVER, getattr(prop, "DRIVER_FLAGS", ()), libs=getattr(prop, "DRIVER_LIBS", ()))
-    if drv is None:
-        print("BUILD-ERROR: /repo's working tree does not compile with the driver:\n" + dlog[-3000:])
-        rp = core.write_replay(pid, dict(kind="build", log=dlog[-3000:], note="correspondence %s cannot be established: driver does not build" % pid))
-        print("VIOLATION property=%s replay=%s no-failing-input-found" % (pid, rp))
-        core.write_evidence(pid, tier, seed, dict(obligations=pc["obligations"], discharged=pc["discharged"],
-            checker_cmd="coqc -Q coq HV coq/Properties_%s.v" % pid, trusted_base=core.TRUSTED_BASE,
-            evaluations=0, distinct_nontrivial=0, rule="driver build failed", samples=[]), time.monotonic() - t0, 1)
-        return 1
-    rc, plat = core.sh([drv, "--platform"])
-    if "size_t=8 time_t=8 int=4" not in plat:
-        print("FRAMEWORK-ERROR: platform differs from what the theorems were instantiated at: " + plat); return 2
-
-    # 3. cases: regression corpus first, then generated
+    # 2-4. per build configuration: driver from /repo's working tree, correspondence, failing-input search, observations
     rng = random.Random(seed * 1000003 + sum(map(ord, pid)))
     cases = []
     corpus = os.path.join(core.VERIF, "corpus", pid + ".cases")
@@ -62,57 +48,130 @@ def run_check(pid, tier, seed, replay=None):
                 parts = l.split(" || ")
                 cases.append(Case(parts[0], "corpus", True, parts[1] if len(parts) > 1 else None))
     ncorpus = len(cases)
+    configs = [core.PRIMARY]
     if replay:
         rp = json.load(open(replay))
         cases = [Case(c["case"], "replay", True, c.get("spec")) for c in rp.get("cases", [])]
         if not cases:
             print("replay file names no concrete case (%s)" % rp.get("note", "")); 
+        allc = [core.PRIMARY] + core.MATRIX_PURE + core.MATRIX_ZEROING
+        configs = [c for c in allc if c["label"] == rp.get("config")][:1] or configs
     else:
         cases.extend(prop.gen(rng, tier))
+        if tier == "thorough":
+            # more seeds of the same generators, then the build matrix
+            seen = set(c.line for c in cases)
+            for extra_seed in range(1, int(os.environ.get("VERIF_THOROUGH_SEEDS", "3")) + 1):
+                r2 = random.Random((seed + 7919 * extra_seed) * 1000003 + sum(map(ord, pid)))
+                for c in prop.gen(r2, tier):
+                    if c.line not in seen:
+                        seen.add(c.line); cases.append(c)
+            configs = configs + list(getattr(prop, "MATRIX", core.MATRIX_PURE))
     lines = [c.line for c in cases]
     env = dict(os.environ); env.update(getattr(prop, "ENV", {}))
-    impl = core.run_lines(drv, lines, rundir, "impl", env=env)
     derive = getattr(prop, "derive", None)
-    if derive:
-        # two-phase correspondence: the model is run with environment values (nonces, process key) read back from the implementation
-        raw = impl; pairs = [derive(c, r) for c, r in zip(cases, raw)]
-        impl = [p[1] for p in pairs]
-        model = core.run_lines(model_exe, [p[0] for p in pairs], rundir, "model")
-        for c, p in zip(cases, pairs):
-            if c.spec is None and len(p) > 2: c.spec = p[2]
-    else:
-        model = core.run_lines(model_exe, lines, rundir, "model")
-
-    # 4. diff + failing-input search
-    mism = [i for i in range(len(cases)) if impl[i] != model[i]]
-    viol = []     # concrete: impl != spec
-    nospec = []   # impl != model, no spec verdict separates them
-    if mism:
-        # the spec is evaluated on the smallest disagreeing cases only (specs are written for clarity, not speed)
-        costf = getattr(prop, "spec_cost", lambda c: len(c.line))
-        withspec = sorted([i for i in mism if cases[i].spec], key=lambda i: costf(cases[i]))[:25]
-        specout = spec_eval(model_exe, [cases[i].spec for i in withspec], rundir)
-        sp = dict(zip(withspec, specout))
-        for i in mism:
-            if i in sp:
-                if impl[i] != sp[i]:
-                    viol.append((i, sp[i]))
-                else:
-                    notes.append("model disagrees with spec and implementation on: " + cases[i].line[:200])
-                    nospec.append(i)
-            else:
-                nospec.append(i)
-    # property-specific failing-input search for mismatches that have no spec-level verdict
     searchf = getattr(prop, "search", None)
-    found = []
-    if searchf and nospec and not viol:
-        found = searchf(dict(rundir=rundir, drv=drv, model_exe=model_exe, cases=cases, impl=impl, model=model, idx=nospec)) or []
-    # property-specific extra checks (runtime observations, invariants of outputs)
     extra = getattr(prop, "extra", None)
+    keyf = getattr(prop, "key", lambda c, i, m: c.line[:200])
     extra_cov = {}
-    if extra and not replay:
-        for kind, text, payload in extra(dict(rundir=rundir, tier=tier, seed=seed, rng=rng, cases=cases, impl=impl, model=model, drv=drv, model_exe=model_exe, extra_cov=extra_cov)):
-            problems.append((kind, text, payload))
+    pending = []       # (keystr, payload, concrete)
+    total_mism = 0; total_evals = 0; cfg_report = []
+    model_cache = None
+    impl = model = []
+    if len(configs) > 1:
+        # build all configurations' drivers in parallel (each is cached under its own key)
+        from concurrent.futures import ThreadPoolExecutor
+        with ThreadPoolExecutor(max_workers=max(2, core.NCPU // 2)) as ex:
+            list(ex.map(lambda cfg: core.ensure_driver(prop.DRIVER, getattr(prop, "DRIVER_FLAGS", ()), libs=getattr(prop, "DRIVER_LIBS", ()),
+                                                       compiler=cfg["compiler"], opt=cfg["opt"], defs=cfg["defs"]), configs))
+    for ci, cfg in enumerate(configs):
+        tc = time.monotonic()
+        drv, dlog = core.ensure_driver(prop.DRIVER, getattr(prop, "DRIVER_FLAGS", ()), libs=getattr(prop, "DRIVER_LIBS", ()),
+                                       compiler=cfg["compiler"], opt=cfg["opt"], defs=cfg["defs"])
+        if drv is None:
+            print("BUILD-ERROR: /repo's working tree does not compile with the driver (%s):\n" % cfg["label"] + dlog[-3000:])
+            rp = core.write_replay(pid, dict(kind="build", config=cfg["label"], log=dlog[-3000:], note="correspondence %s cannot be established: driver does not build" % pid))
+            print("VIOLATION property=%s replay=%s no-failing-input-found" % (pid, rp))
+            core.write_evidence(pid, tier, seed, dict(obligations=pc["obligations"], discharged=pc["discharged"],
+                checker_cmd="coqc -Q coq HV coq/Properties_%s.v" % pid, trusted_base=core.TRUSTED_BASE,
+                evaluations=0, distinct_nontrivial=0, rule="driver build failed", samples=[]), time.monotonic() - t0, 1)
+            return 1
+        rc, plat = core.sh([drv, "--platform"])
+        if "size_t=8 time_t=8 int=4" not in plat:
+            print("FRAMEWORK-ERROR: platform differs from what the theorems were instantiated at: " + plat); return 2
+
+        c_impl = core.run_lines(drv, lines, rundir, "impl%d" % ci, env=env)
+        if derive:
+            # two-phase correspondence: the model is run with environment values (nonces, process key) read back from the implementation
+            pairs = [derive(c, r) for c, r in zip(cases, c_impl)]
+            c_impl = [p[1] for p in pairs]
+            c_model = core.run_lines(model_exe, [p[0] for p in pairs], rundir, "model%d" % ci)
+            for c, p in zip(cases, pairs):
+                if len(p) > 2: c.spec = p[2]
+        else:
+            if model_cache is None:
+                model_cache = core.run_lines(model_exe, lines, rundir, "model")
+            c_model = model_cache
+        if ci == 0:
+            impl, model = c_impl, c_model
+        total_evals += len(cases)
+
+        # diff + failing-input search
+        mism = [i for i in range(len(cases)) if c_impl[i] != c_model[i]]
+        total_mism += len(mism)
+        viol = []     # concrete: impl != spec
+        nospec = []   # impl != model, no spec verdict separates them
+        if mism:
+            # the spec is evaluated on the smallest disagreeing cases only (specs are written for clarity, not speed)
+            costf = getattr(prop, "spec_cost", lambda c: len(c.line))
+            withspec = sorted([i for i in mism if cases[i].spec], key=lambda i: costf(cases[i]))[:25]
+            specout = spec_eval(model_exe, [cases[i].spec for i in withspec], rundir)
+            sp = dict(zip(withspec, specout))
+            for i in mism:
+                if i in sp:
+                    if c_impl[i] != sp[i]:
+                        viol.append((i, sp[i]))
+                    else:
+                        notes.append("model disagrees with spec and implementation on: " + cases[i].line[:200])
+                        nospec.append(i)
+                else:
+                    nospec.append(i)
+        # property-specific failing-input search for mismatches that have no spec-level verdict
+        found = []
+        if searchf and nospec and not viol:
+            found = searchf(dict(rundir=rundir, drv=drv, model_exe=model_exe, cases=cases, impl=c_impl, model=c_model, idx=nospec)) or []
+        for i, spv in viol:
+            pending.append((keyf(cases[i], c_impl[i], c_model[i]), dict(kind="input", property=pid, config=cfg["label"],
+                   cases=[dict(case=cases[i].line, spec=cases[i].spec)], implementation=c_impl[i], model=c_model[i], spec=spv,
+                   note="implementation differs from the proved-correct spec on this input",
+                   replay_cmd="bin/check %s --replay <this file>" % pid), True))
+        for keystr, payload in found:
+            payload = dict(payload); payload.setdefault("config", cfg["label"])
+            pending.append((keystr, payload, True))
+        if nospec and not viol and not found:
+            i = nospec[0]
+            pending.append((keyf(cases[i], c_impl[i], c_model[i]), dict(kind="correspondence", property=pid, config=cfg["label"],
+                   cases=[dict(case=cases[j].line, spec=cases[j].spec) for j in nospec[:5]], implementation=c_impl[i], model=c_model[i],
+                   note="correspondence %s (model vs implementation) no longer holds on these cases; no spec-level verdict separates them" % pid), False))
+        # property-specific extra checks (runtime observations, invariants of outputs)
+        if extra and not replay and (ci == 0 or getattr(prop, "EXTRA_PER_CONFIG", False)):
+            ecov = {}
+            for kind, text, payload in extra(dict(rundir=rundir, tier=tier, seed=seed, rng=rng, cases=cases, impl=c_impl, model=c_model, drv=drv,
+                                                  model_exe=model_exe, extra_cov=ecov, config=cfg)):
+                payload = dict(payload) if payload else None
+                if payload is not None: payload.setdefault("config", cfg["label"])
+                problems.append((kind, text, payload))
+            if ci == 0: extra_cov.update(ecov)
+            else: extra_cov.setdefault("per_config", {})[cfg["label"]] = ecov
+        cfg_report.append(dict(config=cfg["label"], cases=len(cases), mismatches=len(mism), wall_s=round(time.monotonic() - tc, 1)))
+        def _unknown():
+            for keystr, payload, _ in pending:
+                if not core.known_match(pid, keystr): return True
+            for kind, text, payload in problems:
+                if not core.known_match(pid, payload.get("key", text) if payload else text): return True
+            return False
+        if _unknown():
+            break      # a violation was found; the remaining configurations add nothing to the verdict
 
     nviol = 0
     reported_known = set()
@@ -129,19 +188,8 @@ def run_check(pid, tier, seed, replay=None):
             rp = core.write_replay(pid, payload)
             print("VIOLATION property=%s replay=%s%s" % (pid, rp, "" if concrete else " no-failing-input-found"))
 
-    keyf = getattr(prop, "key", lambda c, i, m: c.line[:200])
-    for i, spv in viol:
-        report(keyf(cases[i], impl[i], model[i]), dict(kind="input", property=pid,
-               cases=[dict(case=cases[i].line, spec=cases[i].spec)], implementation=impl[i], model=model[i], spec=spv,
-               build=" ".join(core.BASE_FLAGS), note="implementation differs from the proved-correct spec on this input",
-               replay_cmd="bin/check %s --replay <this file>" % pid), True)
-    for keystr, payload in found:
-        report(keystr, payload, True)
-    if nospec and not viol and not found:
-        i = nospec[0]
-        report(keyf(cases[i], impl[i], model[i]), dict(kind="correspondence", property=pid,
-               cases=[dict(case=cases[j].line, spec=cases[j].spec) for j in nospec[:5]], implementation=impl[i], model=model[i],
-               note="correspondence %s (model vs implementation) no longer holds on these cases; no spec-level verdict separates them" % pid), False)
+    for keystr, payload, concrete in pending:
+        report(keystr, payload, concrete)
     for kind, text, payload in problems:
         concrete = bool(payload and payload.get("cases"))
         p = dict(kind=kind, property=pid, note=text)
@@ -158,16 +206,16 @@ def run_check(pid, tier, seed, replay=None):
     cov = dict(obligations=pc["obligations"], discharged=pc["discharged"],
                checker_cmd="make -C coq (full .vo build) && coqc -Q coq HV coq/Properties_%s.v" % pid,
                trusted_base=core.TRUSTED_BASE, theorems=pc["theorems"], print_assumptions=pc["assumptions"],
-               evaluations=len(cases), distinct_nontrivial=len(cls),
+               evaluations=total_evals, distinct_nontrivial=len(cls), configurations=cfg_report,
                rule=getattr(prop, "RULE", "") + " | distinct = different class tuple; corpus cases first (%d)" % ncorpus,
                class_histogram=dict(allcls.most_common(40)), samples=samples[:8],
-               correspondence_mismatches=len(mism), repo_hash=core.repo_hash(), notes=notes[:10])
+               correspondence_mismatches=total_mism, repo_hash=core.repo_hash(), notes=notes[:10])
     cov.update(extra_cov)
     core.write_evidence(pid, tier, seed, cov, time.monotonic() - t0, nviol,
                         assumptions=getattr(prop, "ASSUMPTIONS", []))
     shutil.rmtree(rundir, ignore_errors=True)
     if nviol:
         return 1
-    print("OK property=%s tier=%s seed=%d cases=%d classes=%d obligations=%d/%d wall=%.1fs" %
-          (pid, tier, seed, len(cases), len(cls), pc["discharged"], pc["obligations"], time.monotonic() - t0))
+    print("OK property=%s tier=%s seed=%d cases=%d configs=%d classes=%d obligations=%d/%d wall=%.1fs" %
+          (pid, tier, seed, len(cases), len(cfg_report), len(cls), pc["discharged"], pc["obligations"], time.monotonic() - t0))
     return 0
